@@ -7,7 +7,7 @@ MODULE = "GoNfsd.Props.C05"
 
 
 def run(ctx):
-    ok_go, ok_drv = seqlib.build_and_prove(ctx, MODULE)
+    ok_go, ok_drv = seqlib.build_and_prove(ctx, MODULE, extra_parts=["skeleton"])
     if ok_go:
         t = ctx.tier == "thorough"
         sd = ["-seed", str(ctx.seed)]
@@ -35,7 +35,7 @@ def run(ctx):
         "PARTIAL (for all histories: sampled). Lean theorems on top of fsck_sound: at a quiescent point an accepted image has nothing half-freed, the blocks marked in use are exactly the "
         "metadata plus the blocks of objects reachable from the root, likewise the inodes (marked_eq_reachable, imarked_eq_reachable); when only the root is left only its blocks stay marked "
         "(delete_all_restores); in ANY accepted image, crash images included, a marked data block has an owner, so nothing is lost for good (no_block_lost); the running server's allocators "
-        "equal the on-disk bitmaps (alloc_sound); on the block-map model M7 (bmap/indbmap/indshrink/Shrink transliterated) truncation releases a direct pointer or an index root exactly when the shrink run visits the first index it serves, an index block beyond the accounted range is never released, and a short write leaves ShrinkSize above the block that failed (truncation_releases_visited, index_block_beyond_range_is_never_released, short_write_covers_failed_block). Ties: the block-map correspondence (pointer structure of a real file before/after WRITE, READ of a hole, truncation, incl. running out of space inside bmap); build-then-delete rounds on small disks (free counts must return to those of the empty file system; images checked); crash images "
+        "equal the on-disk bitmaps (alloc_sound); on the block-map model M7 (bmap/indbmap/indshrink/Shrink transliterated) truncation releases a direct pointer or an index root exactly when the shrink run visits the first index it serves, an index block beyond the accounted range is never released, and a short write leaves ShrinkSize above the block that failed (truncation_releases_visited, index_block_beyond_range_is_never_released, short_write_covers_failed_block); on the hand-over model M15 (requests leaving truncations to shrinker threads, threads running transactions and exiting, helpers): when no thread is left nothing is pending (quiescent_means_nothing_is_left_to_free), false for a StartShrinker that deduplicates threads (deduplicating_the_threads_loses_a_truncation), tied by the statement lists of package shrinker and the uses of Resize's result regenerated from the source (start_shrinker_always_starts_a_thread) and by a directed run that removes a file between the thread's last commit and its exit. Ties: the block-map correspondence (pointer structure of a real file before/after WRITE, READ of a hole, truncation, incl. running out of space inside bmap); build-then-delete rounds on small disks (free counts must return to those of the empty file system; images checked); crash images "
         "taken while the shrinker frees a 770-block file: checked after recovery and again after the half-freed numbers have been reused (then nothing may be half-freed)",
         "build-then-delete rounds: files of every size class (inside a block, direct, indirect, double-indirect), sparse growth, holes filled by reads, nested directories, renames over "
         "targets, failing requests, oversized writes, disks small enough to run out of space; directed: REMOVE / RENAME-over of a file whose truncation is still running in the background; "
